@@ -251,7 +251,7 @@ def gen_case(draw):
                 opts += [("zext", k, e), ("zext", k, e), ("sext", k, e), ("concat", _c(0, k), e), ("concat", e, _c(0, k))]
             if w >= 2:
                 opts += [("bvshl", e, _c(draw(st.integers(1, w - 1)), w)), ("bvshl", e, _c(draw(st.integers(1, w - 1)), w)), ("bvlshr", e, _c(draw(st.integers(1, w - 1)), w)),
-                         ("extract", draw(st.integers(0, w - 1)), 0, e)]
+                         ("extract", draw(st.integers(0, w - 1)), 0, e), (lambda hi: ("extract", hi, draw(st.integers(0, hi)), e))(draw(st.integers(0, w - 1)))]
             e = draw(st.sampled_from(opts))
         return e
 
